@@ -1,0 +1,57 @@
+//go:build verif && (verif_all || verif_c15)
+// +build verif
+// +build verif_all verif_c15
+
+package gocql
+
+// Verification hooks for C15, walk tier (an application that consumes a paged iterator step by step,
+// looks at NumRows / WillSwitchPage / PageState in between and may abandon it early). Add-only.
+//
+// The asynchronous prefetch (`go n.fetch()` behind nextIter.oncea) cannot be forced to a chosen moment
+// from outside; what CAN be observed deterministically is whether Iter.Scan has already started it:
+// fetchAsync runs synchronously inside Scan, so after Scan returned `oncea` has fired or not.
+
+import "context"
+
+// VerifC15ConnQuery is Conn.query: a statement bound to ONE connection (`q.conn = c`, skipPrepare,
+// consistency ONE), as the driver's own system / schema queries are run; the pages after the first are
+// fetched by nextIter.fetch through `n.qry.conn.executeQuery` instead of the session's query executor.
+func VerifC15ConnQuery(c *Conn, ctx context.Context, stmt string) *Iter {
+	return c.query(ctx, stmt)
+}
+
+// VerifC15NextToken identifies the current page's nextIter (nil: the page has no next page). The
+// harness keeps the tokens it has probed (per scenario), so a nextIter is probed at most once.
+func VerifC15NextToken(iter *Iter) interface{} {
+	if iter.next == nil {
+		return nil
+	}
+	return iter.next
+}
+
+// VerifC15PrefetchProbe reports whether Iter.Scan has started the asynchronous prefetch of the current
+// page's next page (`go n.fetch()` has been executed). The probe consumes `oncea`: if the prefetch had
+// not been started it never will be (the page switch then fetches synchronously), so call it at most
+// once per nextIter. Precondition: the page has a next page.
+func VerifC15PrefetchProbe(iter *Iter) bool {
+	started := true
+	iter.next.oncea.Do(func() { started = false })
+	return started
+}
+
+// VerifC15AwaitNext blocks until the one fetch of the current page's next page has completed (it is
+// nextIter.fetch itself: sync.Once makes the caller wait for a fetch in progress).
+func VerifC15AwaitNext(iter *Iter) {
+	if iter.next != nil {
+		iter.next.fetch()
+	}
+}
+
+// VerifC15ScannerIter is the Iter a Scanner currently stands on (iterScanner.Next replaces it at every
+// page switch and leaves the Iter it was made from untouched).
+func VerifC15ScannerIter(s Scanner) *Iter {
+	if is, ok := s.(*iterScanner); ok {
+		return is.iter
+	}
+	return nil
+}
